@@ -177,6 +177,9 @@ def leaves(base, max_leaves=None):
         prefix = Oracle.next_prefix(trail)
 
 
+_RAISED_LEAVES = []
+
+
 def dist_trace(base):
     """exact distribution of the raw draws over the whole RNG tree (aligned grid of W points)"""
     tally, total, n = {}, Fraction(0), 0
@@ -187,6 +190,8 @@ def dist_trace(base):
             n += 1
             if t["raised"] or not t["raw_known"]:
                 tr["decided"], tr["why"] = False, t["raised"] or "raw draws not observable"
+                if t["raised"]:
+                    _RAISED_LEAVES.append(t)      # the law is not decided, but a sampler that raises on a valid distribution is judged as a run
                 break
             key = tuple(tuple(r) for r in t["raw"])
             tally[key] = tally.get(key, Fraction(0)) + w
@@ -277,6 +282,9 @@ def run(chk):
         dists.append(dist_trace({"keys": KS[1], "wts": wts, "sizes": [3], "N": 1, "scale": "huge"}))
         dists.append(dist_trace({"keys": [(0, 3), (1, 1), (4, 0)], "wts": wts, "sizes": [3, 2], "N": 1, "scale": "unnorm"}))
     chk.rng_leaves += sum(d["leaves"] for d in dists)
+    traces.extend(_RAISED_LEAVES); del _RAISED_LEAVES[:]
+    for t in traces:
+        t.pop("trail", None)
     undd = [d for d in dists if not d["decided"]]
     if und or undd:
         chk.not_decided.append("draw-law / exhaustive leaves: oracle or wrapper not attached (%d runs, %d distributions: %s)"
